@@ -88,19 +88,63 @@ pub fn check_pair(name: &str, src_path: &str, json_path: &str, depth: usize, nod
         Rc::new(b)
     });
     let setup = Setup { bind_externals: Some(true), allow_fallbacks: true, handler: false, observers: vec![], seed: None };
-    let mut stack: Vec<Vec<Op>> = vec![vec![]];
+    if shuffle {
+        // the line a shuffle shows depends on the story seed and on the container's path text, so
+        // one seed cannot be compared line by line. Over ALL seeds 0..K the set of texts that can
+        // appear at each (turn, line) position must be the same for both compilers.
+        let seeds = 400;
+        let turns = 6;
+        let marginals = |p: &Rc<Prog>| -> Option<std::collections::BTreeMap<(usize, usize), std::collections::BTreeSet<String>>> {
+            let mut m: std::collections::BTreeMap<(usize, usize), std::collections::BTreeSet<String>> = Default::default();
+            for seed in 0..seeds {
+                let mut su = setup.clone();
+                su.seed = Some(seed);
+                let mut i = Inst::new(p, &su).ok()?;
+                for t in 0..turns {
+                    let mut l = 0;
+                    while i.observe(false)["can_continue"] == true && l < 50 {
+                        let r = i.apply(&Op::Cont);
+                        m.entry((t, l)).or_default().insert(r);
+                        l += 1;
+                    }
+                    let o = i.observe(false);
+                    m.entry((t, 999)).or_default().insert(o["choices"].to_string());
+                    if o["choices"].as_array().map(|a| a.is_empty()).unwrap_or(true) {
+                        break;
+                    }
+                    i.apply(&Op::Choose(0));
+                }
+            }
+            Some(m)
+        };
+        if let (Some(ma), Some(mb)) = (marginals(&pa), marginals(&pb)) {
+            stats.add("shuffle_seed_runs", 2 * seeds as u64);
+            if let Some(k) = mb.keys().chain(ma.keys()).find(|k| ma.get(k) != mb.get(k)) {
+                stats.violation(Violation {
+                    property: ID.into(),
+                    class: format!("{ID}/differs/{name}/shuffle-outcomes/turn{}-line{}", k.0, k.1),
+                    what: format!("{name}: over story seeds 0..{seeds}, at turn {} line {} the rust-compiled story can show {:?}, the reference-compiled story {:?}", k.0, k.1, ma.get(k), mb.get(k)),
+                    artefact: json!({"check": "c05", "story": name, "history": [], "mode": "shuffle-seeds"}),
+                });
+            }
+        }
+    }
+    // breadth-first over choice paths (so that a node cap cuts the deepest level, not a subtree);
+    // a node = one choice path; its last turn is played line by line on both stories and compared
+    // after every line, earlier turns were compared at the ancestors
+    let mut queue: std::collections::VecDeque<Vec<usize>> = std::collections::VecDeque::from([vec![]]);
     let mut nodes = 0usize;
     let mut capped = false;
-    while let Some(h) = stack.pop() {
+    const LINES_PER_TURN: usize = 400;
+    while let Some(path) = queue.pop_front() {
         if nodes >= node_cap {
             capped = true;
             break;
         }
         nodes += 1;
-        let (ra, rb) = (Inst::build(&pa, &setup, &h), Inst::build(&pb, &setup, &h));
-        stats.add("transitions", 2 * h.len() as u64);
-        let (mut ia, rsa, mut ib, rsb) = match (ra, rb) {
-            (Ok((ia, rsa)), Ok((ib, rsb))) => (ia, rsa, ib, rsb),
+        let (ra, rb) = (Inst::new(&pa, &setup), Inst::new(&pb, &setup));
+        let (mut ia, mut ib) = match (ra, rb) {
+            (Ok(ia), Ok(ib)) => (ia, ib),
             (a, b) => {
                 let (ea, eb) = (a.err(), b.err());
                 if ea != eb {
@@ -108,39 +152,86 @@ pub fn check_pair(name: &str, src_path: &str, json_path: &str, depth: usize, nod
                         property: ID.into(),
                         class: format!("{ID}/load/{name}"),
                         what: format!("{name}: Story::new differs: rust-compiled {:?} vs reference {:?}", ea, eb),
-                        artefact: json!({"check": "c05", "story": name, "history": hist_to_json(&h)}),
+                        artefact: json!({"check": "c05", "story": name, "history": []}),
                     });
                 }
                 return;
             }
         };
-        if ia.fuel_exhausted || ib.fuel_exhausted {
+        let mut h: Vec<Op> = vec![];
+        let mut replay_ok = true;
+        for &c in &path {
+            for _ in 0..LINES_PER_TURN {
+                if ib.observe(false)["can_continue"] != true {
+                    break;
+                }
+                ia.apply(&Op::Cont);
+                ib.apply(&Op::Cont);
+                h.push(Op::Cont);
+            }
+            let (x, y) = (ia.apply(&Op::Choose(c)), ib.apply(&Op::Choose(c)));
+            h.push(Op::Choose(c));
+            if x != "ok" || y != "ok" {
+                replay_ok = false;
+                break;
+            }
+        }
+        stats.add("transitions", 2 * h.len() as u64);
+        if !replay_ok || ia.fuel_exhausted || ib.fuel_exhausted {
             stats.inc("fuel_exhausted");
             continue;
         }
-        let (oa, ob) = (ia.observe(false), ib.observe(false));
-        let va = view(&oa, shuffle, rsa.last().map(|s| s.as_str()).unwrap_or(""));
-        let vb = view(&ob, shuffle, rsb.last().map(|s| s.as_str()).unwrap_or(""));
-        stats.see("states", &format!("{name}|{vb}"));
-        if let Some(f) = first_diff(&va, &vb) {
-            let top = f.split('.').next().unwrap_or("").to_string();
-            stats.violation(Violation {
-                property: ID.into(),
-                class: format!("{ID}/differs/{name}/{top}"),
-                what: format!("{name}: after {} op(s) the rust-compiled story and the reference-compiled story differ in `{f}`", h.len()),
-                artefact: json!({"check": "c05", "story": name, "history": hist_to_json(&h), "field": f, "rust": va, "reference": vb}),
-            });
-            return;
+        // the last turn, line by line
+        let mut last = (String::new(), String::new());
+        let mut ob = Value::Null;
+        let mut diverged = false;
+        for step in 0..LINES_PER_TURN {
+            let oa = ia.observe(false);
+            ob = ib.observe(false);
+            let va = view(&oa, shuffle, &last.0);
+            let vb = view(&ob, shuffle, &last.1);
+            stats.see("states", &format!("{name}|{vb}"));
+            if let Some(f) = first_diff(&va, &vb) {
+                let top = f.split(['.', '[']).next().unwrap_or("").to_string();
+                // the class names the story, the field and the two differing values (hashed), so
+                // that another difference in the same story is a different class
+                let sig = crate::report::hash_str(&format!("{}|{}", va[&top], vb[&top])) % 0x1000000;
+                stats.violation(Violation {
+                    property: ID.into(),
+                    class: format!("{ID}/differs/{name}/{top}/{sig:06x}"),
+                    what: format!("{name}: after choices {path:?} and {step} line(s) the rust-compiled story and the reference-compiled story differ in `{f}`"),
+                    artefact: json!({"check": "c05", "story": name, "history": hist_to_json(&h), "field": f, "rust": va, "reference": vb}),
+                });
+                diverged = true;
+                break;
+            }
+            if ob["can_continue"] != true {
+                break;
+            }
+            last = (ia.apply(&Op::Cont), ib.apply(&Op::Cont));
+            h.push(Op::Cont);
+            stats.add("transitions", 2);
+            if ia.fuel_exhausted || ib.fuel_exhausted {
+                break;
+            }
         }
-        let next = sigma_play(&ob);
-        if next.is_empty() || h.len() >= depth {
+        if diverged {
+            // the subtree below a difference is not explored; other paths still are
+            stats.inc("paths_with_difference");
+            if stats.get("paths_with_difference") > 40 {
+                return;
+            }
+            continue;
+        }
+        let n_choices = ob["choices"].as_array().map(|a| a.len()).unwrap_or(0);
+        if n_choices == 0 || path.len() >= depth {
             stats.inc("traces");
             continue;
         }
-        for op in next.into_iter().rev() {
-            let mut hh = h.clone();
-            hh.push(op);
-            stack.push(hh);
+        for c in 0..n_choices {
+            let mut p2 = path.clone();
+            p2.push(c);
+            queue.push_back(p2);
         }
     }
     stats.add("nodes", nodes as u64);
@@ -156,8 +247,8 @@ pub fn check_pair(name: &str, src_path: &str, json_path: &str, depth: usize, nod
 pub fn run(tier: Tier) -> i32 {
     let started = std::time::Instant::now();
     let (depth, cap, big_cap, secs) = match tier {
-        Tier::Quick => (14, 4000, 500, 50),
-        Tier::Thorough => (16, 60_000, 6_000, 2400),
+        Tier::Quick => (6, 3000, 1200, 50),
+        Tier::Thorough => (9, 60_000, 9_000, 2400),
     };
     let pairs = pool::corpus_pairs();
     let ctl = RunCtl::new(secs);
